@@ -31,11 +31,16 @@ def synth_cases(draw):
     n_on = draw(st.integers(1, 4))
     n_off = draw(st.integers(1, 10))
     m = 2 * n_off
-    spec = draw(st.sampled_from(["well", "decay", "deficient", "gap"]))
+    spec = draw(st.sampled_from(["well", "decay", "deficient", "gap", "sparse"]))
     seed = draw(st.integers(0, 2**32 - 1))
     dtype = draw(st.sampled_from(["float64", "float64", "float32"]))
     # spectrum first, then the number of retained modes, then the cut-off placed in the gap below them
-    if spec == "well":
+    if spec == "sparse":
+        # exact zeros in C_on,off: some off-axis measurements are uncorrelated with the on-axis sensor but correlated
+        # with other off-axis measurements (s_on = a, s_1 = a + b, s_2 = b ...)
+        sig = np.ones(m)
+        keep = m
+    elif spec == "well":
         sig = np.linspace(1.0, draw(st.sampled_from([0.5, 0.1, 0.01])), m)
         keep = m
     elif spec == "decay":
@@ -66,6 +71,14 @@ def build_synth(case):
     sig = np.asarray(case["sig"], dtype=np.float64)
     Moff = Q * np.sqrt(sig)[None, :]                        # C_off = Q diag(sig) Q^T
     Mon = rng.normal(size=(p, m))
+    if case["spec"] == "sparse":
+        # bidiagonal loadings on the latents (s_j = z_j + w_j z_{j+1}); the on-axis sensor sees only the first latents
+        Moff = np.eye(m) + np.diag(rng.integers(1, 4, size=m - 1) / 4.0, 1) if m > 1 else np.eye(1)
+        k_on = int(rng.integers(1, m)) if m > 1 else 1
+        Mon = np.zeros((p, m))
+        Mon[:, :k_on] = rng.integers(-4, 5, size=(p, k_on)) / 4.0
+        if not Mon.any():
+            Mon[0, 0] = 1.0
     E = case["noise"] * rng.normal(size=(p, p))
     Coff = Moff @ Moff.T
     Coff = 0.5 * (Coff + Coff.T)
